@@ -150,3 +150,20 @@ def c15(ctx):
     ctx.notes.append('Kani 0.68 / CBMC 6.11 with unwinding assertions; std pointer types are the real ones')
     ctx.add(kani_check.check(ctx))
     seq_run(ctx, 'c15_weak_container', features=('weak',))
+
+
+@prop('C19')
+def c19(ctx):
+    import autotrait
+    ctx.level = 'other'
+    ctx.bounds.update({'wrappers': ['ArcSwapAny', 'Guard', 'Cache', 'MapCache', 'MapGuard', 'Map', 'DynGuard'],
+                       'strategies': ['DefaultStrategy (= IndependentStrategy)'],
+                       'pointer_kinds': [p for _, p in autotrait.POINTERS]})
+    ctx.outside += ['the fixed table of std auto-trait facts (Arc, Rc, Option, Cell, PhantomData, &T, ...)',
+                    'RwLock<()> strategy (internal test strategy)', 'user-defined RefCnt pointer types']
+    ctx.extra['explanation'] = ('fact base = Send/Sync impls (incl. compiler-synthesized) from rustdoc JSON of the current tree; '
+                                'z3 decides, per wrapper and trait, whether an instantiation exists where the wrapper is '
+                                'Send/Sync and the stored pointer is not (and conversely); models are compiled with rustc')
+    r = autotrait.check(ctx)
+    ctx.extra['derivations'] = r.pop('all_samples')
+    ctx.add(r)
